@@ -1,6 +1,9 @@
 package main
 
 import (
+	"go/token"
+	"strings"
+
 	"golang.org/x/tools/go/ssa"
 )
 
@@ -215,4 +218,52 @@ func (w *World) storesBelowP(root *ssa.Function, pred func(FieldStore) bool, max
 	}
 	walk(root, nil, map[*ssa.Function]bool{root: true})
 	return out
+}
+
+// incrementBelow recognises `base.F = base.F.Add(x)` for a store found below the root function and returns x in the
+// root function's terms (the store may sit in a helper or a method of the struct: `(*T).UpdateAfter(x)`).
+func incrementBelow(sb StoreBelow) (ssa.Value, bool) {
+	c, ok := sb.Val.(*ssa.Call)
+	if !ok || !strings.HasSuffix(callName(c.Common()), "math.Int.Add") {
+		return nil, false
+	}
+	a := c.Common().Args
+	if len(a) != 2 {
+		return nil, false
+	}
+	same := func(v ssa.Value) bool {
+		u, ok := v.(*ssa.UnOp)
+		if !ok || u.Op != token.MUL {
+			return false
+		}
+		fa, ok := u.X.(*ssa.FieldAddr)
+		return ok && fa.Field == sb.FS.FA.Field && (fa.X == sb.Base || sameLoad(fa.X, sb.Base))
+	}
+	if same(a[0]) {
+		return a[1], true
+	}
+	if same(a[1]) {
+		return a[0], true
+	}
+	return nil, false
+}
+
+// mintedIncrement: the value the minting routine adds to MinterState.AmountMinted (in the routine's terms), the
+// instruction of the routine at which that happens (the store, or the call of the helper containing it), and the
+// number of such updates found.
+func mintedIncrement(w *World, mint *ssa.Function) (ssa.Value, ssa.Instruction, int) {
+	var amount ssa.Value
+	var at ssa.Instruction
+	n := 0
+	stop := func(s *Site) bool { return s.Static == mint }
+	for _, sb := range w.storesBelow(mint, "MinterState", 2, stop) {
+		if sb.FS.Field != "AmountMinted" || !namedIs(sb.FS.Struct, "x/cfeminter/types", "MinterState") {
+			continue
+		}
+		if inc, ok := incrementBelow(sb); ok {
+			amount, at = inc, sb.Top()
+			n++
+		}
+	}
+	return amount, at, n
 }
